@@ -27,6 +27,8 @@ def enc(v):
         return {'l': [enc(x) for x in v]}
     if isinstance(v, BaseException):
         return {'exc': type(v).__name__}
+    if isinstance(v, _Vec):
+        return {'vec': [enc(x) for x in v.v]}
     for _n, _c in CALLABLES.items():
         if v is _c:
             return {'callable': _n}
@@ -48,6 +50,8 @@ def dec(j):
             return tuple([dec(x) for x in j['t']])
         if 'l' in j:
             return [dec(x) for x in j['l']]
+        if 'vec' in j:
+            return _Vec([dec(x) for x in j['vec']])
         if 'callable' in j:
             return CALLABLES[j['callable']]     # a value that happens to be callable (a class): a value like any other
     raise ValueError('bad value %r' % (j,))
@@ -81,6 +85,37 @@ SHARED_NAN = float('nan')
 
 class _Sentinel(object):
     pass
+
+
+class _Amb(object):
+    """the answer of an elementwise comparison: it has no truth value (as a numpy array of several elements)"""
+    def __bool__(self):
+        raise ValueError('The truth value of an elementwise comparison is ambiguous')
+
+
+class _Vec(object):
+    """a vector value: `+` is elementwise (with a number or a vector), `==` / `!=` are elementwise too and their answer cannot be
+    used as a condition — what numpy arrays and pandas objects do"""
+    def __init__(self, v):
+        self.v = list(v)
+
+    def __add__(self, o):
+        if isinstance(o, _Vec):
+            return _Vec([a + b for a, b in zip(self.v, o.v)])
+        return _Vec([a + o for a in self.v])
+
+    __radd__ = __add__
+
+    def __eq__(self, o):
+        return _Amb()
+
+    def __ne__(self, o):
+        return _Amb()
+
+    __hash__ = None
+
+    def __repr__(self):
+        return '_Vec(%r)' % (self.v,)
 
 
 class _NeInt(object):
@@ -171,6 +206,22 @@ def fn1(d):
         # instances without __eq__: equal only to themselves (Python only; outside the model's value domain)
         k = d[1]
         return lambda x: SENTINELS[(x // k) % 3]
+    if n == 'append_mark':
+        # a consumer that changes the list it was handed IN PLACE (appends a trailer) and passes it on
+        def am(x):
+            x.append(d[1])
+            return x
+        return am
+    if n == 'set_first':
+        # a consumer that overwrites the first element of the list it was handed, in place
+        def sf(x):
+            x[0] = d[1]
+            return x
+        return sf
+    if n == 'list_of':
+        # a fresh list as value (lists compare by ==, and differ from every tuple)
+        k = d[1]
+        return lambda x: [x // k, 'k']
     if n == 'is_float':
         return lambda x: isinstance(x, float)
     if n == 'round_robin':
